@@ -27,7 +27,8 @@ class CFG:
         self.exits = [bid for bid in self.succ if body.blocks[bid].term.kind == 'return']
         if diverging_as_exits:
             # a block without normal successors (panic!, unreachable, abort) ends the path too: a branch into it is a decision
-            self.exits += [bid for bid in self.succ if not self.succ[bid] and body.blocks[bid].term.kind != 'return']
+            # (only diverging CALLS: an `unreachable` terminator — the impossible arm of a match — is never executed)
+            self.exits += [bid for bid in self.succ if not self.succ[bid] and body.blocks[bid].term.kind == 'call']
         self._dom = None
         self._pdom = None
 
